@@ -218,7 +218,8 @@ def genU2fsCase (cap : Nat) (prior : List Byte) (r : U2fResp) : String :=
     specified, so the oracle reports the implementation-independent part: failure -/
 def specU2fsCase (cap : Nat) (prior : List Byte) (r : U2fResp) : String :=
   let bytes := Spec.u2fResponseBytes r
-  if prior.length + bytes.length ≤ cap then "ok " ++ hexOrDash (prior ++ bytes) else "err"
+  if prior.length + bytes.length ≤ cap then "ok " ++ hexOrDash (prior ++ bytes)
+  else if prior.isEmpty then "err" else "err " ++ toHex prior       -- what was there stays (prefix)
 
 def genRegnewCase (x y : List Byte) : String :=
   match registerPublicKey x y with
